@@ -144,8 +144,14 @@ pub struct WakerQueue { _p: () }
 pub struct QueueGuard { _p: () }
 
 impl WakerQueue {
+    /// the content seen by the most recent `guard()` was empty
+    pub uninterp spec fn last_empty(&self) -> bool;
+
+    /// declared `&mut self` (receiver strengthening): the only call site is `self.waker_queue.guard()` in
+    /// `handle_waker(&mut self)`; the ghost flag records whether this lock observed an empty queue.
     #[verifier::external_body]
-    pub fn guard(&self) -> (g: QueueGuard)
+    pub fn guard(&mut self) -> (g: QueueGuard)
+        ensures final(self).last_empty() == (g@.len() == 0),
     { unimplemented!() }
 
     #[verifier::external_body]
@@ -269,6 +275,11 @@ pub open spec fn rotdist(h: Seq<WorkerHandleAccept>, av: Set<usize>, next: int) 
 }
 
 impl Accept {
+    /// equal in everything but the waker queue's ghost lock record
+    pub open spec fn same_state(&self, o: &Accept) -> bool {
+        self.same_dispatch(o) && self.poll == o.poll && self.timeout == o.timeout && self.paused == o.paused
+    }
+
     pub open spec fn same_dispatch(&self, o: &Accept) -> bool {
         self.handles == o.handles && self.avail == o.avail && self.srv == o.srv && self.next == o.next
     }
@@ -580,7 +591,7 @@ impl Accept {
             && final(sockets)@[token as int].lst.registered() == old(sockets)@[token as int].lst.registered(),
 //@insert after="Ok(io) => {"
                     assert(io.origin() == token as int);   // [C01] the stream is tagged with the listener it came from
-//@insert arm_end="Err(err) =>"
+//@insert before="return;"
                     assert(info.timeout.is_some() && info.timeout.unwrap().t() == now_spec() + 500 * 1_000_000);   // [C05] ~500 ms back-off
                     assert(!info.lst.registered());   // [C05]
                     assert(self.timeout.is_some() && self.timeout.unwrap().ns() <= 510 * 1_000_000);   // [C05] the poll wakes up in time
@@ -699,13 +710,16 @@ impl Accept {
         final(self).wf(),   // [C08]
         sockets_wf(final(sockets)@, final(self).reg().token_bound()),
         !exit ==> i5(final(self), final(sockets)@),   // [C05]
-        final(self).poll == old(self).poll && final(self).waker_queue == old(self).waker_queue,
+        final(self).poll == old(self).poll,
+        // the loop is left without Stop only after a lock that found the queue empty: everything queued before
+        // that lock has been processed   [C03]
+        !exit ==> final(self).waker_queue.last_empty(),
         // Stop: every listener is deregistered before the loop exits   [C06]
         exit ==> forall|k: int| 0 <= k < final(sockets)@.len() ==> !(#[trigger] final(sockets)@[k]).lst.registered(),
 //@insert after="loop {"
             let ghost pre = *self;
             let ghost pre_s = sockets@;
-//@insert before="if !self.paused {" nth=1
+//@insert arm_last="Some(WakerInterest::WorkerAvailable(idx)) =>"
                     // the bit is set exactly when a handle answers to the index, and nothing else is touched  [C03,C08]
                     assert(pre.has_idx(idx) ==> self.avail@ == pre.avail@.insert(idx));
                     assert(!pre.has_idx(idx) ==> self.avail@ == pre.avail@);
@@ -714,7 +728,7 @@ impl Accept {
                     // a worker became available: unless paused every listener has been offered the capacity  [C03]
                     assert(!self.paused ==> (!self.has_capacity() || forall|k: int| 0 <= k < sockets@.len() ==>
                         (#[trigger] sockets@[k]).lst.drained() || sockets@[k].timeout.is_some()));
-//@insert before="if !self.paused {" nth=2
+//@insert arm_last="Some(WakerInterest::Worker(handle)) =>"
                     // the replacement worker joins the rotation and is marked available   [C08]
                     assert(self.handles@.len() == pre.handles@.len() + 1);
                     assert(self.handles@.subrange(0, pre.handles@.len() as int) == pre.handles@);
@@ -732,12 +746,12 @@ impl Accept {
                         (#[trigger] sockets@[k]).lst.drained() || sockets@[k].timeout.is_some()));   // [C03,C08]
 //@insert arm_end="Some(WakerInterest::Pause) =>"
                     assert(self.paused);   // [C05]
-                    assert(pre.paused ==> *self == pre && sockets@ == pre_s);   // [C05] idempotent
+                    assert(pre.paused ==> self.same_state(&pre) && sockets@ == pre_s);   // [C05] idempotent
                     assert(forall|k: int| 0 <= k < sockets@.len() ==> !(#[trigger] sockets@[k]).lst.registered() && sockets@[k].timeout.is_none());   // [C05]
                     assert(self.same_dispatch(&pre));
 //@insert arm_end="Some(WakerInterest::Resume) =>"
                     assert(!self.paused);   // [C05]
-                    assert(!pre.paused ==> *self == pre && sockets@ == pre_s);   // [C05] idempotent
+                    assert(!pre.paused ==> self.same_state(&pre) && sockets@ == pre_s);   // [C05] idempotent
                     assert(forall|k: int| 0 <= k < sockets@.len() ==> (#[trigger] sockets@[k]).lst.registered() || sockets@[k].timeout.is_some());   // [C05] every listener accepts again
                     assert(pre.paused ==> (!self.has_capacity() || forall|k: int| 0 <= k < sockets@.len() ==>
                         (#[trigger] sockets@[k]).lst.drained() || sockets@[k].timeout.is_some()));   // [C05] including connections that arrived meanwhile
@@ -746,21 +760,21 @@ impl Accept {
             self.wf(),
             sockets_wf(sockets@, self.reg().token_bound()),
             i5(self, sockets@),
-            self.poll == old(self).poll && self.waker_queue == old(self).waker_queue,
-//@loop 2
+            self.poll == old(self).poll,
+//@loop head="while r9_k < self.handles.len()" optional
         invariant
             r9_k <= self.handles@.len(),
-            *self == pre,
+            self.same_state(&pre),
             r9_any ==> self.has_idx(idx),
             !r9_any ==> forall|j: int| 0 <= j < r9_k ==> (#[trigger] self.handles@[j]).spec_idx() != idx,
         decreases self.handles@.len() - r9_k, if r9_any { 0int } else { 1int },
-//@loop 3
+//@loop head="while r9_n < sockets.len()"
         invariant
             r9_n <= sockets@.len(),
             sockets@.len() == pre_s.len(),
             !self.paused,
             self.wf(),
-            self.poll == old(self).poll && self.waker_queue == old(self).waker_queue,
+            self.poll == old(self).poll,
             self.same_dispatch(&pre) && self.timeout == pre.timeout,
             sockets_wf(sockets@, self.reg().token_bound()),
             forall|k: int| 0 <= k < sockets@.len() ==> (#[trigger] sockets@[k]).timeout.is_none(),
